@@ -314,6 +314,55 @@ def dict_copying_calls(tree: ast.AST) -> List[tuple]:
     return out
 
 
+def crossed_fields(fn: ast.FunctionDef) -> List[tuple]:
+    """(line, field, names) of every ``self.<p> = <expression over other parameters only>`` in a constructor whose
+    parameter list has a ``p`` of its own: the field documented as p holds another argument."""
+    a = fn.args
+    params = [x.arg for x in a.posonlyargs + a.args + a.kwonlyargs]
+    if not params:
+        return []
+    selfn, params = params[0], set(params[1:])
+    out = []
+    own = set()          # fields that some assignment does compute from their own parameter (others are fall-backs)
+    for st in astu.walk_no_nested(fn):
+        tgts, val = [], None
+        if isinstance(st, ast.Assign):
+            tgts, val = st.targets, st.value
+        elif isinstance(st, ast.AnnAssign) and st.value is not None:
+            tgts, val = [st.target], st.value
+        for t in tgts:
+            if isinstance(t, ast.Attribute) and isinstance(t.value, ast.Name) and t.value.id == selfn and t.attr in params:
+                used = {n.id for n in ast.walk(val) if isinstance(n, ast.Name) and n.id in params}
+                if t.attr in used:
+                    own.add(t.attr)
+                elif used:
+                    out.append((st.lineno, t.attr, sorted(used)))
+    return [h for h in out if h[1] not in own]
+
+
+def rule_CF(run: Run) -> RuleResult:
+    """A constructor stores each argument in the field of its own name."""
+    res = RuleResult("R-CF")
+    nec = ("requests, expressions and errors are plain records whose fields carry the constructor's parameter names: a handler reads "
+           "request.options, an operation reads self.options. A field that holds another argument (self.options = value) is invisible to the "
+           "library's own defaults and breaks every handler or sibling that reads the documented field (C18, C07, C12)")
+    probe = ast.parse("class R:\n    def __init__(self, value, type, options):\n        self.value = value\n        self.type = type\n        self.options = value\n").body[0].body[0]
+    if not crossed_fields(probe):
+        raise AnalysisError("R-CF: the crossed-field detector no longer sees its positive example")
+    n = 0
+    for m, cls, fn, q in iter_functions(run.repo):
+        if cls is None or fn.name != "__init__" or m.name.startswith("labrea.mypy"):
+            continue
+        n += 1
+        hits = crossed_fields(fn)
+        res.add(f"{q}:every field named like a parameter holds that parameter", not hits, m.relpath, hits[0][0] if hits else fn.lineno,
+                "each self.<p> is computed from p" if not hits else f"self.{hits[0][1]} is computed from {hits[0][2]} only (line {hits[0][0]})", nec)
+    res.count("constructors", n)
+    if n < 30:
+        raise AnalysisError(f"R-CF: only {n} constructors found")
+    return res
+
+
 def rule_UW(run: Run) -> RuleResult:
     """Wrapping never copies the wrapped object's attributes wholesale."""
     res = RuleResult("R-UW")
@@ -773,6 +822,51 @@ def rule_MX(run: Run) -> RuleResult:
             f"pre-set dictionaries: {[k_[:80] for k_ in okeys]}", nec)
     res.add("labrea.iterable.Map._iter:each combination evaluated through a forcing WithOptions", ok, mp.module.relpath, mp.find_method("evaluate")[1].lineno,
             f"{len(found)} WithOptions terms: {[w.key()[:80] for w in found[:2]]}", nec)
+    # a dataset factory derived from another: what is given now takes the place of (or is laid over) what the factory carried
+    # — `given or stored`, {**stored, **given}, [*stored, *given] — never the other way round
+    df = repo.cls("DatasetFactory")
+    upd = df.methods.get("update")
+    dinit = df.methods.get("__init__")
+    if upd is None or dinit is None:
+        raise AnalysisError("DatasetFactory.update / __init__ not found")
+    iparams = [a.arg for a in dinit.args.posonlyargs + dinit.args.args + dinit.args.kwonlyargs][1:]
+    uparams = {a.arg for a in upd.args.posonlyargs + upd.args.args + upd.args.kwonlyargs}
+    verdicts: Dict[str, List] = {}
+    for p in analyse_function(Ctx(repo), df.module, upd, cls=df):
+        if p.status != "ret" or not (isinstance(p.ret, Sym) and p.ret.head == "new:DatasetFactory"):
+            continue
+        for n_, t in zip(iparams, p.ret.args):
+            if n_ not in uparams:
+                continue
+            if isinstance(t, Sym) and t.head == f"kw:{n_}" and t.args:
+                t = t.args[0]
+            k = t.key()
+            GIV, STO = n_, f"attr:{n_}(self)"
+
+            def pos(txt, what):
+                import re as _re
+                m_ = _re.search(r"(?<![\w:])" + _re.escape(what) + r"(?![\w(])", txt) if what == GIV else None
+                return (m_.start() if m_ else -1) if what == GIV else txt.find(what)
+            v = verdicts.setdefault(n_, [True, k[:90]])
+            gi, si = pos(k, GIV), pos(k, STO)
+            if isinstance(t, Sym) and t.head == "or" and len(t.args) == 2:
+                if not (t.args[0].key() == GIV and t.args[1].key() == STO):
+                    v[0], v[1] = False, k[:90]
+            elif isinstance(t, (Seq,)) or (isinstance(t, Sym) and t.head in ("dict", "binop:Add", "binop:BitOr")):
+                if gi >= 0 and si >= 0 and not si < gi:
+                    v[0], v[1] = False, k[:90]
+            elif k == GIV:
+                if cond_pol(p.conds, f"cmp:Is({n_},Const(None))") is not False:
+                    v[0], v[1] = False, f"{k[:60]} also when nothing was given"
+            elif k == STO:
+                if cond_pol(p.conds, f"cmp:Is({n_},Const(None))") is False:
+                    v[0], v[1] = False, f"{k[:60]} although something was given"
+    for n_, (ok_, how_) in sorted(verdicts.items()):
+        res.add(f"labrea.dataset.DatasetFactory.update:{n_} given now wins over the factory's own", ok_, df.module.relpath, upd.lineno, how_,
+                "a factory that already carries options (dataset(options=P1)) and is called again with options=P2 must declare datasets under P2: with the operands of "
+                "`or` swapped the later argument is silently ignored (C08)")
+    if len(verdicts) < 6:
+        raise AnalysisError(f"R-MX: only {len(verdicts)} fields of DatasetFactory.update recognised")
     return res
 
 
